@@ -435,6 +435,7 @@ class HInterp:
         self.func = func
         self.B = B
         self.depth = 0
+        self.depth_glob = 0
         # case = (r, hasblocks): interpret under  len % B == r  and  (len // B > 0) == hasblocks.  The 2B cases partition the
         # inputs; inside a case every test on the residue / block count is decided and residue-bounded loops are unrolled.
         self.case = case
@@ -753,6 +754,16 @@ class HInterp:
                 if isinstance(v, tuple) and v and v[0] == "undef":
                     raise HUndecided("use of loop variable `%s` after the loop" % e.id)
                 return v
+            # a module-level constant (`_M = np.uint64(0x88...)`), bound once and never rebound
+            g = self.func.module.globals.get(e.id)
+            if g is not None and self.depth_glob < 4:
+                stores = [n for n in ast.walk(self.func.module.tree) if isinstance(n, ast.Name) and n.id == e.id and isinstance(n.ctx, (ast.Store, ast.Del))]
+                if len(stores) == 1:
+                    self.depth_glob += 1
+                    try:
+                        return self.ev(g, HPath())
+                    finally:
+                        self.depth_glob -= 1
             raise HUndecided("name `%s`" % e.id)
         if isinstance(e, ast.BinOp):
             return self.binop(e.op, self.ev(e.left, p), self.ev(e.right, p))
